@@ -340,15 +340,26 @@ func c12Exec(t *testing.T, rng *vrng, plan int) (c12In, c12Obs) {
 			in.Steps = append(in.Steps, c12Step{T: "decision", Digest: d, Status: st1})
 			in.Steps = append(in.Steps, c12Step{T: "decision", Digest: d, Status: st2})
 			r2 := sendDecision(second, dg, st2)
-			if held {
-				close(resume)
-			}
+			_ = held
 			gate.mu.Lock()
 			gate.armed = false
 			gate.mu.Unlock()
-			obs.Outs = append(obs.Outs, <-res1, r2)
+			close(resume) // whoever is parked at the gate (if anybody) goes on
+			r1 := <-res1
+			obs.Outs = append(obs.Outs, r1, r2)
 			bcancel()
-			<-second.ended
+			select {
+			case <-second.ended:
+			case <-time.After(2 * time.Second):
+				obs.Blocked = true
+			}
+			if r1 == "streamEnded" || r1 == "blocked" {
+				select {
+				case <-first.ended:
+					startDec()
+				default:
+				}
+			}
 		default: // decision
 			d := hex.EncodeToString([]byte(append(digests, "unknown")[rng.intn(len(digests)+1)]))
 			st := []int{1, 2, 1, 2, 1, 2, 0, 3, 7}[rng.intn(9)]
